@@ -22,10 +22,12 @@ var table = map[string]func(*fw.Ctx){
 	"C07": checks.C07,
 	"C08": checks.C08,
 	"C09": checks.C09,
+	"C10": checks.C10,
 	"C11": checks.C11,
 	"C12": checks.C12,
 	"C13": checks.C13,
 	"C14": checks.C14,
+	"C15": checks.C15,
 	"C16": checks.C16,
 	"C17": checks.C17,
 	"C18": checks.C18,
